@@ -81,6 +81,78 @@ def selection_idiom(fn: ast.FunctionDef, listname: str = "matches") -> Tuple[Opt
     return None, "selection among matches is not one of the recognised idioms"
 
 
+def accumulation_shape(fn: ast.FunctionDef, listname: str = "matches") -> Tuple[Optional[bool], str]:
+    """How the candidates are collected: True = a list appended to in parent_iter() order, every candidate kept
+    (so position in the pool = scope order, innermost first)."""
+    init = None
+    for n in ast.walk(fn):
+        tgt = None
+        if isinstance(n, ast.Assign) and len(n.targets) == 1:
+            tgt, val = n.targets[0], n.value
+        elif isinstance(n, ast.AnnAssign) and n.value is not None:
+            tgt, val = n.target, n.value
+        if isinstance(tgt, ast.Name) and tgt.id == listname:
+            if init is not None:
+                return None, f"`{listname}` is assigned more than once"
+            init = val
+    if init is None:
+        return None, f"no initialisation of `{listname}` found"
+    is_list = (isinstance(init, ast.List) and not init.elts) or (isinstance(init, ast.Call) and dotted(init.func) == "list" and not init.args)
+    is_dict = (isinstance(init, ast.Dict) and not init.keys) or (isinstance(init, ast.Call) and dotted(init.func) in ("dict", "OrderedDict", "collections.OrderedDict") and not init.args)
+    loops = [n for n in ast.walk(fn) if isinstance(n, ast.For) and "parent_iter()" in ast.unparse(n.iter)]
+    if len(loops) != 1 or not isinstance(loops[0].target, ast.Name):
+        return None, "not exactly one `for <scope> in ...parent_iter()` loop"
+    loop, scope = loops[0], loops[0].target.id
+    inside = {id(x) for x in ast.walk(loop)}
+
+    def depends_on_scope(e: ast.AST, seen=()) -> bool:
+        for x in ast.walk(e):
+            if isinstance(x, ast.Name):
+                if x.id == scope:
+                    return True
+                if x.id in seen:
+                    continue
+                for a in ast.walk(loop):
+                    if isinstance(a, (ast.Assign, ast.AnnAssign)) and a.value is not None:
+                        ts = a.targets if isinstance(a, ast.Assign) else [a.target]
+                        if any(isinstance(t, ast.Name) and t.id == x.id for t in ts) and depends_on_scope(a.value, seen + (x.id,)):
+                            return True
+        return False
+
+    writes = 0
+    for n in ast.walk(fn):
+        # mutations of the pool
+        if isinstance(n, ast.Call) and isinstance(n.func, ast.Attribute) and dotted(n.func.value) == listname:
+            m = n.func.attr
+            if m in ("get", "items", "values", "keys", "copy", "index", "count", "sort"):  # sort: judged by selection_idiom
+                continue
+            if id(n) not in inside:
+                return None, f"`{listname}.{m}(...)` outside the scope loop"
+            writes += 1
+            if is_list and m == "append" and len(n.args) == 1:
+                continue
+            if is_list and m == "insert" and n.args and isinstance(n.args[0], ast.Constant) and n.args[0].value == 0:
+                return False, (f"candidates are collected with `{listname}.insert(0, ...)`: the pool is in reverse scope order, so among equally long "
+                               "matches the outermost scope is met first and an outer binding shadows a macro's iteration variable")
+            return None, f"`{listname}.{m}(...)` is not a recognised way of collecting candidates"
+        if isinstance(n, ast.Subscript) and isinstance(n.ctx, ast.Store) and dotted(n.value) == listname:
+            if id(n) not in inside:
+                return None, f"`{listname}[...] = ...` outside the scope loop"
+            writes += 1
+            if is_dict and not depends_on_scope(n.slice):
+                return False, (f"candidates are stored as `{listname}[{ast.unparse(n.slice)}] = ...` with a key that does not depend on the scope `{scope}`: "
+                               "every outer scope that also defines the name overwrites the entry of the inner one, so the OUTERMOST binding wins and "
+                               "an outer variable shadows a macro's iteration variable of the same name")
+            return None, f"`{listname}[{ast.unparse(n.slice)}] = ...`: not a recognised way of collecting candidates"
+        if isinstance(n, ast.AugAssign) and isinstance(n.target, ast.Name) and n.target.id == listname:
+            return None, f"`{listname}` is updated with an augmented assignment"
+    if not is_list:
+        return None, f"`{listname}` is not initialised as an empty list"
+    if writes == 0:
+        return None, f"`{listname}` is never filled inside the scope loop"
+    return True, "candidates are appended to a list in parent_iter() order"
+
+
 def check(repo: Repo, run: Run) -> None:
     run.explanation = (
         "N1: complete decision table of Referent.value over {container set?} x {value set?}: container > value > annotation "
@@ -156,6 +228,11 @@ def check(repo: Repo, run: Run) -> None:
     # N3 -----------------------------------------------------------------
     rn = ev.func("NameContainer.resolve_name")
     verdict, why = selection_idiom(rn)
+    acc_ok, acc_why = accumulation_shape(rn)
+    if acc_ok is None:
+        verdict, why = None, acc_why
+    elif acc_ok is False:
+        verdict, why = False, acc_why
     if verdict is None:
         run.inconclusive("C12.N3", "NameContainer.resolve_name", why)
     else:
